@@ -191,7 +191,7 @@ def refused_oracle():
 
 def run(ctx):
     out, metas = GC.run_targets(
-        ctx, PID, make_targets, 40, 1000, kmin=1,
+        ctx, PID, make_targets, 40, 500, kmin=1,
         gen=lambda pg: pg.multizone(gold=(pg.rng.random() < 0.25)),
         rule=('multi-currency programs from ProgGen.multizone: 2-3 zones, ExternalSector created at a random position, '
               'exogenous non-unit time-varying XR paths, 1-3 registered cross-zone gifts, 0-2 cross-zone suppliers '
